@@ -4,7 +4,10 @@ GenReports.v  <- pdpy11/reports.py, pdpy11/_cli.py
     WARNING_CLASSES; emit_report, handle_reports.__exit__ (decision part), FilterHandler.__call__
     translated from their if-trees into decision functions over enumerated priorities /
     exception classes; the -W loop of main_cli (checked shape -> fold); structural facts of
-    main_cli (two `with handle_reports` blocks first, every write after them).
+    main_cli: nothing is written before or inside the FIRST `with handle_reports` block (parse,
+    compile, link); the make_* files are written INSIDE the second one (Compiler.emit_files, a failed
+    write is reported and the loop goes on); the -o file and the listing after both, where a failed
+    write exits 1 without a report; so do an unknown --charset / unreadable source before them.
 GenGState.v   <- pdpy11/deferred.py, pdpy11/reports.py (+ a usage scan over pdpy11/*.py)
     TryCompute / Awaiting / handle_reports __enter__/__exit__ as sequences of primitive state
     effects in *source order* on {depth; awaiting; flags; handlers}.
